@@ -230,6 +230,17 @@ package scanner
 //@   ensures [expired-event-records-go-index-and-versions-alike] !native_ttl && w.timeoutRevision != 0 && len(w.eventsPrefix) > 0 && has_prefix(rawKey, events_dir) && ite(revision == 0, be64_of(value) <= w.timeoutRevision, revision <= w.timeoutRevision) ==> isExpired
 //@   ensures [only-at-or-below-the-timeout-revision] isExpired ==> w.timeoutRevision != 0 && ite(revision == 0, be64_of(value) <= w.timeoutRevision, revision <= w.timeoutRevision)
 
+// the timeout revision is the revision of a compaction record that was found at least TTL old (or 0):
+// the remembered record changes only to one whose age was just measured and found not below the TTL;
+// engines with native expiry never get a timeout revision
+//@ func (*scanner).getTimeoutRevision() (result)
+//@   props C17
+//@   nosafety
+//@   requires r != nil && r.store != nil && r.compactHistories != nil
+//@   modifies *
+//@   ensures [engines-with-native-ttl-never-expire-by-scan] native_ttl ==> result == 0
+//@   loop 0 step_lemma [remembered-record-was-found-at-least-ttl-old] prev != head(prev) ==> interval >= r.config.TTL
+
 // ---- C08 ----
 
 //@ func (*scanner).checkCompactRace(ctx, revision, compact) (err)
